@@ -11,7 +11,7 @@ from ..model import _lookup_def, valuations
 from ..terms import EV, show, subterms
 from .common import emissions, mk_finding, summary
 from .io import _defaults
-from .linear import normalise_cmp
+from .linear import linform, normalise_cmp
 from .scan import callback_effects
 
 CSV = "rxsci/container/csv.py"
@@ -395,8 +395,11 @@ class _IndexErr(Exception):
 
 
 # abstract pieces of a split line: (length class, first char is '"', last char is '"', the char before the last is the escape character)
+# the last component: length class of the run of escape characters right before the last character (0: none, 1: an odd number,
+# 2: an even number >= 2).  The writer doubles every escape character and puts one in front of every quote, so a final quote after
+# an even run (0, 2, 4, ...) is the closing quote of the field, after an odd run it is an escaped quote that belongs to the text.
 _PIECES = [("E", None, None, None), ("Q", True, True, None), ("C", False, False, None)] + \
-          [("L", a, b, c) for a in (True, False) for b in (True, False) for c in (True, False)]
+          [("L", a, b, c) for a in (True, False) for b in (True, False) for c in (0, 1, 2)]
 
 
 def _piece_name(c):
@@ -406,16 +409,17 @@ def _piece_name(c):
         return "the piece '\"'"
     if c[0] == "C":
         return "a one-character piece other than '\"'"
+    runs = {0: " not preceded by the escape character", 1: " preceded by an odd number of escape characters (an escaped quote)",
+            2: " preceded by an even number (2, 4, ...) of escape characters (escaped escape characters, then the closing quote)"}
     return "a piece of two or more characters that %s with '\"', %s%s" % (
-        "starts" if c[1] else "does not start", "ends with '\"'" if c[2] else "does not end with '\"'",
-        (" preceded by the escape character" if c[3] else " not preceded by the escape character") if c[2] else "")
+        "starts" if c[1] else "does not start", "ends with '\"'" if c[2] else "does not end with '\"'", runs[c[3]] if c[2] else "")
 
 
 def _merge_spec(c, is_open):
     """what the merger must do with a piece: 'emit' it as a field, 'open' a quoted field with it, 'continue' the open field,
     'close' the open field with it"""
     kind, first, last, esc = c
-    closes = kind == "Q" or (kind == "L" and last and not esc)
+    closes = kind == "Q" or (kind == "L" and last and esc in (0, 2))
     if is_open:
         return "close" if closes else "continue"
     if kind == "Q":
@@ -423,6 +427,36 @@ def _merge_spec(c, is_open):
     if kind == "L" and first:
         return "emit" if closes else "open"
     return "emit"
+
+
+def _escape_run_parity(test, T):
+    """True if the test says 'the run of escape characters before the last character of T has even length', False if it says
+    'odd', None if it is not such a test.  Recognised form: <count> % 2 compared with 0 or 1, where <count> is the difference between
+    len(T[:-1]) and len(T[:-1].rstrip(<escape character>)) (or the same through len(T) - 1)."""
+    if test[0] != "cmp" or test[1] not in ("Eq", "NotEq"):
+        return None
+    for a, b in ((test[2], test[3]), (test[3], test[2])):
+        if a[0] == "binop" and a[1] == "Mod" and a[3] == ("const", 2) and b[0] == "const" and b[1] in (0, 1):
+            body = ("sub", T, ("slice", None, ("const", -1)))
+            body0 = ("sub", T, ("slice", ("const", 0), ("const", -1)))
+            strips = [x for x in subterms(a[2]) if x[0] == "mcall" and x[2] == "rstrip" and x[1] in (body, body0) and len(x[3]) == 1
+                      and x[3][0][0] in ("arg", "param", "free")]
+            if not strips:
+                return None
+            f = linform(a[2])
+            if f is None:
+                return None
+            co, c0 = f
+            ls = ("call", ("builtin", "len"), (strips[0],))
+            lb = [k for k in co if k[0] == "call" and k[1] == ("builtin", "len") and k[2][0] in (body, body0)]
+            lt = ("call", ("builtin", "len"), (T,))
+            ok = (len(co) == 2 and co.get(ls) == -1 and len(lb) == 1 and co[lb[0]] == 1 and c0 == 0) or \
+                 (len(co) == 2 and co.get(ls) == -1 and co.get(lt) == 1 and c0 == -1)
+            if not ok:
+                return None
+            even_when_true = (b[1] == 0) == (test[1] == "Eq")
+            return even_when_true
+    return None
 
 
 def _piece_atom(test, T, c):
@@ -451,11 +485,8 @@ def _piece_atom(test, T, c):
                     raise _IndexErr()
                 if y == QUOTE and k in (0, -1):
                     val = (kind == "Q") or (kind == "L" and (first if k == 0 else last))
-                elif k == -2 and y[0] in ("arg", "param", "free") :
-                    val = bool(esc)
-                    if not last:
-                        # the character before a last character that is not a quote: either value; the code may not depend on it
-                        val = bool(esc)
+                elif k == -2 and y[0] in ("arg", "param", "free"):
+                    val = bool(esc)          # the character before the last one is the escape character iff the run is not empty
             if val is not None:
                 return val if test[1] == "Eq" else (not val)
     if test[0] == "cmp":
@@ -475,6 +506,14 @@ def _piece_atom(test, T, c):
                     return vals.pop()
                 raise AnalysisError("merge_escape_parts: the length test %s separates pieces of two or more characters; the classification table "
                                     "does not know such pieces apart" % show(test))
+    par = _escape_run_parity(test, T)
+    if par is not None:
+        # (number of escape characters right before the last character) % 2 == 0 / != 0 / == 1
+        if kind in ("E", "Q", "C"):
+            even = True
+        else:
+            even = esc in (0, 2)
+        return even if par else (not even)
     if test[0] == "mcall" and test[1] == T and test[2] in ("startswith", "endswith") and tuple(test[3]) == (QUOTE,):
         if kind == "E":
             return False
